@@ -522,9 +522,15 @@ def G11_loop_exit_discipline(repo, clause, scope=ALL_LIB):
                     accs.add(x.func.value.id)
                 elif isinstance(x, ast.AugAssign) and isinstance(x.target, ast.Name):
                     accs.add(x.target.id)
+                elif isinstance(x, ast.AugAssign) and isinstance(x.target, ast.Subscript) and isinstance(x.target.value, ast.Name):
+                    accs.add(x.target.value.id)
+                elif isinstance(x, ast.Expr) and isinstance(x.value, ast.Call) and isinstance(x.value.func, ast.Attribute) and isinstance(x.value.func.value, ast.Name):
+                    # a statement-level method call on an object (block.AddLoopItem(...), f.write(...)): called for its effect on that object
+                    accs.add(x.value.func.value.id)
+            derived = _loop_derived(fn, loop)
+            accs -= derived
             if not accs:
                 continue
-            derived = _loop_derived(fn, loop)
             for br in [x for x in ast.walk(loop) if isinstance(x, ast.Break)]:
                 owner = next((a for a in fn.ancestors(br) if isinstance(a, (ast.For, ast.While))), None)
                 if owner is not loop:
@@ -543,6 +549,15 @@ def G11_loop_exit_discipline(repo, clause, scope=ALL_LIB):
                             for x in loop.body[:k] for y in ast.walk(x))
                 rest_accumulates = any(isinstance(y, ast.Call) and isinstance(y.func, ast.Attribute) and isinstance(y.func.value, ast.Name) and y.func.value.id in accs
                                        for x in loop.body[k + 1:] for y in ast.walk(x)) or any(isinstance(y, ast.AugAssign) for x in loop.body[k + 1:] for y in ast.walk(x))
+                # `for x in <ordered sequence>: if x > limit: break` is the correct early exit of a sorted scan; whether the sequence is sorted, and which way, is not
+                # visible here - an ordering test of the loop item against a loop-invariant bound is left to the rules that know the order (A10)
+                tst = par.test
+                while isinstance(tst, ast.UnaryOp) and isinstance(tst.op, ast.Not):
+                    tst = tst.operand
+                if isinstance(tst, ast.Compare) and len(tst.ops) == 1 and isinstance(tst.ops[0], (ast.Lt, ast.LtE, ast.Gt, ast.GtE)) \
+                        and isinstance(loop.target, ast.Name) and {type(tst.left), type(tst.comparators[0])} <= {ast.Name, ast.Constant, ast.Attribute} \
+                        and loop.target.id in {getattr(tst.left, "id", None), getattr(tst.comparators[0], "id", None)}:
+                    continue
                 bad = about_item and not acted and rest_accumulates
                 obs.append(Ob("G11", clause, fn, par, not bad,
                               "guard clause `if %s: break` in the loop over `%s` of %s: %s" % (
@@ -860,6 +875,53 @@ def G14_view_mutation(repo, clause, scope=ALL_LIB):
                                                                     "`%s` works in place and rewrites the rows of the caller's %s (the helper computation changes the data it was derived from)" % (
                                                                         ast.unparse(muts[0])[:40], ast.unparse(base))),
                           slot="view-mutation:%s:%s" % (fn.qualname, v), positive="robust" if muts else False))
+    # chains: v = other.types; v = np.asarray(v); v += k  (a helper folded into its caller, a local re-bound to a view of itself): follow the reaching definitions
+    for fn in fns:
+        params = set(fn.params) - {"self", "cls"}
+        done = {o.slot for o in obs}
+
+        ARRAYS = ("positions", "atom_types", "charges", "groups", "cell", "bonds", "angles", "dihedrals", "impropers", "bond_types", "angle_types", "dihedral_types",
+                  "improper_types", "extra_atom_fields", "extra_bond_fields", "extra_angle_fields", "extra_dihedral_fields", "extra_improper_fields", "atom_type_masses")
+
+        def origin(st, name, depth=0, wrapped=False):
+            if depth > 4:
+                return None
+            try:
+                ds = fn.rd.defs_at(st, name)
+            except Exception:
+                return None
+            ds = [d for d in ds if isinstance(d, ast.AST)]
+            if len(ds) != 1 or not (isinstance(ds[0], ast.Assign) and len(ds[0].targets) == 1 and isinstance(ds[0].targets[0], ast.Name)):
+                return None
+            b = _view_base(ds[0].value)
+            if b is None:
+                return None
+            wrapped = wrapped or b is not ds[0].value
+            if isinstance(b, ast.Attribute) and isinstance(b.value, ast.Name) and b.value.id in params:
+                # an ndarray for certain: it went through a numpy view constructor, or it is one of the array attributes of Atoms (an int / tuple attribute would be re-bound by +=)
+                return b if (wrapped or b.attr in ARRAYS) else None
+            if isinstance(b, ast.Name) and b.id not in params:
+                return origin(ds[0], b.id, depth + 1, wrapped)
+            return None
+        for x in fn.own_nodes():
+            v = None
+            if isinstance(x, ast.AugAssign) and isinstance(x.target, ast.Name):
+                v = x.target.id
+            elif isinstance(x, ast.Expr) and isinstance(x.value, ast.Call) and isinstance(x.value.func, ast.Attribute) and isinstance(x.value.func.value, ast.Name) \
+                    and x.value.func.attr in ("sort", "partition", "fill", "put", "itemset", "resize"):
+                v = x.value.func.value.id
+            if v is None or v in params or "view-mutation:%s:%s" % (fn.qualname, v) in done:
+                continue
+            st = fn.stmt_of(x) or x
+            b = origin(st, v)
+            if b is None:
+                continue
+            n += 1
+            done.add("view-mutation:%s:%s" % (fn.qualname, v))
+            obs.append(Ob("G14", clause, fn, x, False,
+                          "`%s` in %s works in place on `%s`, which (through np.asarray / plain re-binding, no copy on the way) is still the caller's array %s: the computation changes the "
+                          "data of the argument it was derived from (a second call with the same object sees the shifted values)" % (ast.unparse(x)[:40], fn.qualname, v, ast.unparse(b)),
+                          slot="view-mutation:%s:%s" % (fn.qualname, v), positive="robust"))
     obs.append(Ob("G14", clause, fns[0], fns[0].node, True, "%d functions in scope, %d locals that are views of an argument's array inspected" % (len(fns), n),
                   construct="view mutation inventory", slot="inventory"))
     return obs
@@ -1462,6 +1524,214 @@ def G22_positional_order(repo, clause, scope=ALL_LIB):
             obs.append(Ob("G22", clause, fn, fn.node, False, "%s no longer has the parameter(s) %s" % (fn.qualname, gone), construct="def %s(%s)" % (fn.name, ", ".join(cur)),
                           slot="positional-order:%s" % fn.qualname, undecided=True))
     obs.append(Ob("G22", clause, fns[0], fns[0].node, True, "%d public functions in scope compared with their confirmed signatures" % n, construct="signature inventory", slot="inventory"))
+    return obs
+
+
+def G24_second_order_induction(repo, clause, scope=ALL_LIB):
+    """`for i in range(n): ...; x += i * step; ... use(x)` - x is not reset inside the loop, so after iteration i it holds (0 + 1 + ... + i) * step: a SECOND-order induction
+    variable (0, 1, 3, 6 ...).  Read inside the same loop as "the value for this iteration" (an offset, an index, an argument) this is the hoisting slip
+    `shift += i * v` for `shift_i = base + i * v`; the strength-reduced form adds the constant step (`x += step`).  A weighted sum that is only read after the loop is fine."""
+    obs = []
+    fns = _scope_fns(repo, scope)
+    n = 0
+    for fn in fns:
+        for loop in [l for l in fn.own_nodes() if isinstance(l, ast.For) and isinstance(l.target, ast.Name) and isinstance(l.iter, ast.Call) and call_name(l.iter) == "range"]:
+            iv = loop.target.id
+            for st in [x for x in ast.walk(loop) if isinstance(x, ast.AugAssign) and isinstance(x.op, (ast.Add, ast.Sub)) and isinstance(x.target, ast.Name)]:
+                # the update belongs to THIS loop's iteration (not to an inner loop, where it would be reset or accumulate per inner index)
+                owner = next((a_ for a_ in fn.ancestors(st) if isinstance(a_, (ast.For, ast.While))), None)
+                if owner is not loop:
+                    continue
+                inc = st.value
+                mult = [b for b in ast.walk(inc) if isinstance(b, ast.BinOp) and isinstance(b.op, ast.Mult) and (
+                    (isinstance(b.left, ast.Name) and b.left.id == iv) or (isinstance(b.right, ast.Name) and b.right.id == iv))]
+                if not mult:
+                    continue
+                n += 1
+                x = st.target.id
+                inside = list(ast.walk(loop))
+                reset = [a for a in inside if isinstance(a, ast.Assign) and any(isinstance(t, ast.Name) and t.id == x for t in a.targets)
+                         and next((a_ for a_ in fn.ancestors(a) if isinstance(a_, (ast.For, ast.While))), None) is loop]
+                if reset:
+                    continue
+                reads = [u for u in inside if isinstance(u, ast.Name) and u.id == x and isinstance(u.ctx, ast.Load) and fn.stmt_of(u) is not st]
+                if not reads:
+                    obs.append(Ob("G24", clause, fn, st, True, "`%s` accumulates a weighted sum that is read after the loop only" % ast.unparse(st)[:50], slot="second-order:%s:%s" % (fn.qualname, x)))
+                    continue
+                obs.append(Ob("G24", clause, fn, st, False,
+                              "`%s` inside `for %s in %s` of %s is never reset in that loop, so `%s` holds (0 + 1 + ... + %s) times the step - 0, 1, 3, 6 ... - and it is READ in the same loop "
+                              "(`%s`) as the value of the current iteration, where base + %s * step (0, 1, 2, 3 ...) is meant" % (
+                                  ast.unparse(st)[:50], iv, ast.unparse(loop.iter)[:30], fn.qualname, x, iv, ast.unparse(fn.stmt_of(reads[0]))[:50], iv),
+                              slot="second-order:%s:%s" % (fn.qualname, x), positive="robust"))
+    obs.append(Ob("G24", clause, fns[0], fns[0].node, True, "%d functions in scope, %d index-weighted in-loop accumulations examined" % (len(fns), n), construct="induction variable inventory", slot="inventory"))
+    return obs
+
+
+def G25_vectorize_output_type(repo, clause, scope=ALL_LIB):
+    """np.vectorize(f) without `otypes` takes the dtype of the whole result array from the FIRST value f returns.  If f can return an int for some arguments and a
+    float for others (sums of entries of a literal table that mixes `2` and `1.96`), a row that happens to start with an int truncates every later value of that row.
+    Decided from the source: the literal types of the table entries and constants f's return expressions are built from."""
+    obs = []
+    fns = _scope_fns(repo, scope)
+    n = 0
+
+    def kinds(f, e, depth=3):
+        """set of numeric kinds {'int', 'float'} the expression may evaluate to; {'?'} when unknown"""
+        if isinstance(e, ast.Constant):
+            if isinstance(e.value, bool):
+                return {"int"}
+            if isinstance(e.value, int):
+                return {"int"}
+            if isinstance(e.value, float):
+                return {"float"}
+            return {"?"}
+        if isinstance(e, ast.BinOp) and isinstance(e.op, (ast.Add, ast.Sub, ast.Mult)):
+            a, b = kinds(f, e.left, depth), kinds(f, e.right, depth)
+            if "?" in a or "?" in b:
+                return {"?"}
+            out = set()
+            for x in a:
+                for y in b:
+                    out.add("float" if "float" in (x, y) else "int")
+            return out
+        if isinstance(e, ast.BinOp) and isinstance(e.op, ast.Div):
+            return {"float"}
+        if isinstance(e, ast.UnaryOp):
+            return kinds(f, e.operand, depth)
+        if isinstance(e, ast.IfExp):
+            return kinds(f, e.body, depth) | kinds(f, e.orelse, depth)
+        if isinstance(e, ast.Subscript) and isinstance(e.value, ast.Name):
+            try:
+                m_, v_ = repo.table(e.value.id)
+                val = ast.literal_eval(v_)
+            except Exception:
+                return {"?"}
+            if isinstance(val, dict) and val and all(isinstance(x, (int, float)) and not isinstance(x, bool) for x in val.values()):
+                return {"int" if isinstance(x, int) else "float" for x in val.values()}
+            return {"?"}
+        if isinstance(e, ast.Name) and depth > 0:
+            try:
+                v = expand(f, e)
+            except Exception:
+                return {"?"}
+            if v is not e and not (isinstance(v, ast.Name) and v.id == e.id):
+                return kinds(f, v, depth - 1)
+        if isinstance(e, ast.Call) and call_name(e) == "float":
+            return {"float"}
+        if isinstance(e, ast.Call) and call_name(e) in ("int", "len", "round") and len(e.args) == 1:
+            return {"int"}
+        return {"?"}
+
+    for fn in fns:
+        for c in [x for x in fn.own_nodes() if isinstance(x, ast.Call) and call_name(x) == "vectorize" and x.args]:
+            n += 1
+            if any(k.arg == "otypes" for k in c.keywords):
+                obs.append(Ob("G25", clause, fn, c, True, "`%s` states its output type" % ast.unparse(c)[:50], slot="vectorize:%s:%s" % (fn.qualname, ast.unparse(c.args[0])[:30])))
+                continue
+            target = c.args[0]
+            callee = repo.maybe_fn(target.id) if isinstance(target, ast.Name) else None
+            if callee is None:
+                continue
+            ks = set()
+            for r in [x for x in callee.own_nodes() if isinstance(x, ast.Return) and x.value is not None]:
+                ks |= kinds(callee, r.value)
+            mixed = {"int", "float"} <= ks
+            if mixed:
+                tables = sorted({x.value.id for r in callee.own_nodes() if isinstance(r, ast.Return) and r.value is not None for x in ast.walk(r.value)
+                                 if isinstance(x, ast.Subscript) and isinstance(x.value, ast.Name)})
+                obs.append(Ob("G25", clause, fn, c, False,
+                              "`%s` in %s has no otypes: the result array takes the type of the FIRST value, and %s can return an int for some arguments and a float for others "
+                              "(its returns are built from %s, which mixes integer and float literals): a row that starts with an int result truncates every later value of the row" % (
+                                  ast.unparse(c)[:50], fn.qualname, callee.qualname, ", ".join(tables) or "mixed constants"),
+                              slot="vectorize:%s:%s" % (fn.qualname, ast.unparse(c.args[0])[:30]), positive="robust"))
+            elif "?" not in ks and ks:
+                obs.append(Ob("G25", clause, fn, c, True, "`%s`: %s always returns %s" % (ast.unparse(c)[:50], callee.qualname, sorted(ks)), slot="vectorize:%s:%s" % (fn.qualname, ast.unparse(c.args[0])[:30])))
+    obs.append(Ob("G25", clause, fns[0], fns[0].node, True, "%d functions in scope, %d np.vectorize calls examined" % (len(fns), n), construct="vectorize inventory", slot="inventory"))
+    return obs
+
+
+def G26_any_of_indices(repo, clause, scope=ALL_LIB):
+    """`np.any(rows)` / `any(rows)` / `rows.any()` asks whether some ELEMENT is non-zero.  For a collection of row indices (the thing handed to np.delete / np.take / used
+    as a fancy index) that is not "are there any rows": the list [0] - only the first row - is falsy.  The emptiness test is `len(rows) > 0` (or `.size`)."""
+    obs = []
+    fns = _scope_fns(repo, scope)
+    n = 0
+    for fn in fns:
+        # names used as index collections
+        idx_names = {}
+        for c in fn.own_nodes():
+            if isinstance(c, ast.Call) and call_name(c) in ("delete", "take") and len(c.args) >= 2 and isinstance(c.args[1], ast.Name) \
+                    and (isinstance(c.func, ast.Attribute) and isinstance(c.func.value, ast.Name) and c.func.value.id in ("np", "numpy")):
+                idx_names.setdefault(c.args[1].id, c)
+        if not idx_names:
+            continue
+        for t in fn.own_nodes():
+            nm = None
+            if isinstance(t, ast.Call) and call_name(t) in ("any",) and t.args and isinstance(t.args[0], ast.Name) and not (isinstance(t.func, ast.Attribute) and not (
+                    isinstance(t.func.value, ast.Name) and t.func.value.id in ("np", "numpy"))):
+                nm = t.args[0].id
+            elif isinstance(t, ast.Call) and isinstance(t.func, ast.Attribute) and t.func.attr == "any" and isinstance(t.func.value, ast.Name) and not t.args:
+                nm = t.func.value.id
+            if nm is None or nm not in idx_names:
+                continue
+            # a boolean mask is also a legal `obj` of np.delete: only names that are index collections (results of nonzero / where / flatnonzero / list of ints / a helper's return)
+            try:
+                v = expand(fn, ast.Name(id=nm, ctx=ast.Load()))
+            except Exception:
+                v = None
+            src = None
+            for d in fn.own_nodes():
+                if isinstance(d, ast.Assign) and any(isinstance(tg, ast.Name) and tg.id == nm for tg in d.targets):
+                    src = d.value
+            if src is not None and isinstance(src, ast.Compare):
+                continue     # a mask
+            if src is not None and any(isinstance(y, ast.Call) and call_name(y) in ("isin", "in1d", "zeros", "ones", "logical_and", "logical_or") for y in ast.walk(src)) \
+                    and not any(isinstance(y, ast.Call) and call_name(y) in ("nonzero", "flatnonzero", "where", "argwhere") for y in ast.walk(src)):
+                continue     # a mask
+            n += 1
+            obs.append(Ob("G26", clause, fn, t, False,
+                          "`%s` in %s tests whether some element of `%s` is non-zero, but `%s` holds ROW INDICES (it is what `%s` removes): the single index 0 - the first row - is "
+                          "falsy, so the case 'only row 0 is affected' is treated as 'nothing to do'" % (ast.unparse(t)[:40], fn.qualname, nm, nm, ast.unparse(idx_names[nm])[:50]),
+                          slot="any-of-indices:%s:%s" % (fn.qualname, nm), positive="robust"))
+    obs.append(Ob("G26", clause, fns[0], fns[0].node, True, "%d functions in scope, %d truth tests of index collections flagged" % (len(fns), n), construct="index truthiness inventory", slot="inventory"))
+    return obs
+
+
+def G27_unique_count_vs_size(repo, clause, scope=ALL_LIB):
+    """np.setdiff1d / intersect1d / union1d / unique return the DISTINCT values.  Comparing how many come back with the size of the input (`len(np.setdiff1d(row, gone)) <
+    n_columns` for "something was taken out of the row") silently assumes the input has no repeats: a row that names one atom twice (the angle 1-0-1 across a periodic
+    boundary, a self bond) already has fewer distinct values than columns and is treated as touched by ANY deletion."""
+    obs = []
+    fns = _scope_fns(repo, scope)
+    n = 0
+    for fn in fns:
+        for cmp_ in [x for x in fn.all_nodes() if isinstance(x, ast.Compare) and len(x.ops) == 1]:
+            sides = [cmp_.left, cmp_.comparators[0]]
+            for k, sd in enumerate(sides):
+                inner = None
+                if isinstance(sd, ast.Call) and call_name(sd) == "len" and sd.args and isinstance(sd.args[0], ast.Call) and call_name(sd.args[0]) in ("setdiff1d", "intersect1d", "union1d", "unique"):
+                    inner = sd.args[0]
+                elif isinstance(sd, ast.Attribute) and sd.attr == "size" and isinstance(sd.value, ast.Call) and call_name(sd.value) in ("setdiff1d", "intersect1d", "union1d", "unique"):
+                    inner = sd.value
+                if inner is None or not inner.args:
+                    continue
+                if any(kw.arg == "assume_unique" for kw in inner.keywords):
+                    continue
+                other = sides[1 - k]
+                try:
+                    ov = expand(fn, other)
+                except Exception:
+                    ov = other
+                sized = any((isinstance(y, ast.Attribute) and y.attr in ("shape", "size")) or (isinstance(y, ast.Call) and call_name(y) == "len") for y in ast.walk(ov))
+                if not sized:
+                    continue
+                n += 1
+                obs.append(Ob("G27", clause, fn, cmp_, False,
+                              "`%s` in %s compares the number of DISTINCT values returned by %s with a size (`%s`): a row that repeats a value (an angle 1-0-1 through a periodic image, "
+                              "a self bond) has fewer distinct values than entries to begin with, so it is classified as if something had been removed from it" % (
+                                  ast.unparse(cmp_)[:70], fn.qualname, call_name(inner), ast.unparse(ov)[:30]),
+                              slot="unique-count-vs-size:%s" % fn.qualname, positive="robust"))
+    obs.append(Ob("G27", clause, fns[0], fns[0].node, True, "%d functions in scope, %d comparisons of a distinct-value count with a size flagged" % (len(fns), n), construct="distinct count inventory", slot="inventory"))
     return obs
 
 
